@@ -8,8 +8,8 @@ open Gen
 
 /-! ### the parsed functions reproduce what the compiled code answers (translation validation, in the kernel) -/
 
-theorem dump_enum : dumpEnum = Hyp.all.map (fun (h : Hyp) => (h.val, h.name)) := by decide
-theorem dump_hypotheses : dumpHyps = getModellingHypotheses.map Hyp.val := by decide
+theorem dump_enum : dumpEnum = Hyp.all.map (fun (h : Hyp) => (h.val, h.name)) := by decide +kernel
+theorem dump_hypotheses : dumpHyps = getModellingHypotheses.map Hyp.val := by decide +kernel
 theorem dump_accessors :
     dumpH = Hyp.all.map (fun (h : Hyp) => (h.val, Gen.toString h, toUpperCaseString h, getSpaceDimension h,
       getStensorSize h, getTensorSize h)) := by rfl
@@ -18,9 +18,9 @@ theorem dump_accessors :
 theorem dump_templates :
     dumpT.map (fun r => (r.1, some r.2.1, some r.2.2.1, some r.2.2.2)) =
       getModellingHypotheses.map (fun (h : Hyp) => (h.val, getSpaceDimension h, getStensorSize h, getTensorSize h)) := by
-  decide
+  decide +kernel
 theorem dump_strings :
-    dumpS = dumpS.map (fun r => (r.1, isModellingHypothesis r.1, (fromString r.1).map Hyp.val)) := by decide
+    dumpS = dumpS.map (fun r => (r.1, isModellingHypothesis r.1, (fromString r.1).map Hyp.val)) := by decide +kernel
 
 /-! ### the list of hypotheses -/
 
